@@ -299,6 +299,11 @@ def _add(bundle: Bundle, val: BundleAttr) -> BundleAttr:
         msg = f"Invalid Bundle attribute {val} for {bundle}"
         raise TypeError(msg)
 
+    # If this name is being re-used, remove its prior holder from the other type-specific container
+    for ctr in (bundle.signals, bundle.bundles):
+        if ctr is not type_ctr:
+            ctr.pop(val.name, None)
+
     # Add it to the bundle namespace, and the type-specific container
     type_ctr[val.name] = val
     bundle.namespace[val.name] = val
